@@ -471,6 +471,17 @@ pub fn generate(seed: u64, k_seeds: usize) -> Sc {
             all_rows = out;
         }
     }
+    // Opening positions: sometimes the same symbol twice (the later one counts), padded, or for a
+    // symbol that has no transactions.
+    if !symbol_base.is_empty() && r.chance(1, 6) {
+        let first = symbol_base[0].clone();
+        let sym = first.split(':').next().unwrap_or("FOO").to_string();
+        match r.below(3) {
+            0 => symbol_base.push(format!("{}:{}:{}", sym, r.range(1, 40), cents_str(r.range(500, 90000)))),
+            1 => symbol_base[0] = format!(" {}", first),
+            _ => symbol_base.push("NOPE:3:30.00".to_string()),
+        }
+    }
     // A fifth of the inputs write some share counts with trailing zeros ("10.0", "2.50"): the same
     // number at another scale, which Decimal keeps and some cells print.
     if r.chance(1, 5) {
